@@ -297,6 +297,9 @@ func c07RunHistory(r *fw.Rand, seq rtp.Sequencer, g, opsEach int, rollPct int, y
 				}
 			}()
 		}
+		// (workload shaping only, see c07Storm)
+		tm := time.AfterFunc(30*time.Millisecond, func() { stopPoll.Store(true) })
+		defer tm.Stop()
 	}
 	defer func() { stopPoll.Store(true); pollers.Wait() }()
 	for k := 0; k < g; k++ {
@@ -650,6 +653,10 @@ func c07Storm(c *fw.Ctx, i int) {
 			}
 		}()
 	}
+	// the pollers only shape the workload; if an implementation makes the workers crawl while it is polled, the pollers leave after
+	// 30 ms and the workers finish alone (the verdict does not depend on when that happens)
+	tm := time.AfterFunc(30*time.Millisecond, func() { stop.Store(true) })
+	defer tm.Stop()
 	for w := 0; w < workers; w++ {
 		wg.Add(1)
 		go func() {
